@@ -63,7 +63,8 @@ type API struct {
 	Unary         func(ctx context.Context, tok int) (int, error)
 	Notify        func(ctx context.Context, tok int) error        `notify:"true"`
 	Retry         func(ctx context.Context, tok int) (int, error) `retry:"true"`
-	RetryNC       func(tok int) (int, error)                      `retry:"true"` // retry-tagged, no context parameter
+	RetryNC       func(tok int) (int, error)                      `retry:"true"`  // retry-tagged, no context parameter
+	RetryFalse    func(ctx context.Context, tok int) (int, error) `retry:"false"` // the tag is there, but it says no
 	Raw           func(ctx context.Context, p jsonrpc.RawParams) (int, error)
 	Sub           func(ctx context.Context, tok int, n int) (<-chan [2]int, error)
 	SubOnly       func(ctx context.Context, tok int, n int) <-chan [2]int           // a method whose only result is the channel
@@ -88,6 +89,7 @@ type RevAPI struct {
 	WhoTag   func(ctx context.Context, tok int) (string, error)             `rpc_method:"R.Who"` // method tag naming the client-side method
 	WhoPad   func(ctx context.Context, tok int, pad string) (string, error) // a reverse call with a large request
 	WhoBig   func(ctx context.Context, tok int, size int) (string, error)   // a reverse call with a large response
+	WhoRetry func(ctx context.Context, tok int) (string, error)             `retry:"true"` // a retry-tagged reverse method
 }
 
 type RH struct {
@@ -101,6 +103,15 @@ func (r *RH) Who(ctx context.Context, tok int) (string, error) {
 	return r.name, nil
 }
 
+func (r *RH) WhoRetry(ctx context.Context, tok int) (string, error) { return r.name, nil }
+
+// Who2 is what a client configured with the second alias table routes "R.WhoAlias" to.
+func (r *RH) Who2(ctx context.Context, tok int) (string, error) {
+	r.w.Rec.Emit("RevStart", "call", tok, "peer", r.name)
+	defer r.w.Rec.Emit("RevEnd", "call", tok, "peer", r.name)
+	return r.name + "~2", nil
+}
+
 func (r *RH) WhoPad(ctx context.Context, tok int, pad string) (string, error) { return r.name, nil }
 func (r *RH) WhoBig(ctx context.Context, tok int, size int) (string, error) {
 	r.w.Rec.Emit("RevStart", "call", tok, "peer", r.name)
@@ -112,6 +123,7 @@ func (r *RH) WhoBig(ctx context.Context, tok int, size int) (string, error) {
 }
 
 type Client struct {
+	alias2 bool
 	Name   string
 	API    API
 	Closer jsonrpc.ClientCloser
@@ -324,6 +336,7 @@ func (h *H) body(ctx context.Context, tok int, method string) (int, error) {
 		select {
 		case <-p.release:
 		case <-ctx.Done():
+			h.w.Rec.Emit("HandlerCtxDone", "call", tok) // observed by the handler itself while it is active
 		}
 	}
 	switch {
@@ -338,9 +351,12 @@ func (h *H) body(ctx context.Context, tok int, method string) (int, error) {
 	return tok, nil
 }
 
-func (h *H) Unary(ctx context.Context, tok int) (int, error)           { return h.body(ctx, tok, "Unary") }
-func (h *H) Retry(ctx context.Context, tok int) (int, error)           { return h.body(ctx, tok, "Retry") }
-func (h *H) RetryNC(ctx context.Context, tok int) (int, error)         { return h.body(ctx, tok, "RetryNC") }
+func (h *H) Unary(ctx context.Context, tok int) (int, error)   { return h.body(ctx, tok, "Unary") }
+func (h *H) Retry(ctx context.Context, tok int) (int, error)   { return h.body(ctx, tok, "Retry") }
+func (h *H) RetryNC(ctx context.Context, tok int) (int, error) { return h.body(ctx, tok, "RetryNC") }
+func (h *H) RetryFalse(ctx context.Context, tok int) (int, error) {
+	return h.body(ctx, tok, "RetryFalse")
+}
 func (h *H) Raw(ctx context.Context, p jsonrpc.RawParams) (int, error) { return len(p), nil }
 func (h *H) Notify(ctx context.Context, tok int)                       { h.body(ctx, tok, "Notify") }
 
@@ -555,6 +571,15 @@ func (h *H) CallBackAfter(ctx context.Context, tok int) (string, error) {
 		case <-time.After(patience(2 * time.Second)):
 			h.w.Rec.Emit("RevCallEnd", "call", tok, "failed", false, "blocked", true)
 		}
+		// the same through a retry-tagged reverse method: a client that is gone for good is not worth retrying for ever
+		res2 := make(chan error, 1)
+		go func() { _, err := rc.WhoRetry(context.Background(), tok); res2 <- err }()
+		select {
+		case err := <-res2:
+			h.w.Rec.Emit("RevCallEnd", "call", tok, "failed", err != nil)
+		case <-time.After(patience(2 * time.Second)):
+			h.w.Rec.Emit("RevCallEnd", "call", tok, "failed", false, "blocked", true)
+		}
 	}
 	leave("val")
 	return "after", nil
@@ -702,6 +727,7 @@ type ClientOpts struct {
 	Direct      bool // bypass the proxy
 	Reverse     bool // register the reverse handler
 	NoPing      bool
+	Alias2      bool   // this client's handler alias table routes R.WhoAlias to R.Who2 instead of R.Who
 	Via         string // explicit address to connect to (e.g. a TCPProxy in front of the server)
 }
 
@@ -717,7 +743,7 @@ func (w *World) SetDialGate(on bool) {
 }
 
 func (w *World) NewClient(o ClientOpts) (*Client, error) {
-	c := &Client{Name: o.Name, HTTP: o.HTTP, w: w}
+	c := &Client{Name: o.Name, HTTP: o.HTTP, w: w, alias2: o.Alias2}
 	addr := w.Proxy.Addr()
 	if o.Direct || o.HTTP {
 		addr = w.TS.Listener.Addr().String() // the proxy only understands WebSocket traffic
@@ -749,7 +775,11 @@ func (w *World) NewClient(o ClientOpts) (*Client, error) {
 		opts = append(opts, jsonrpc.WithReconnectBackoff(o.BackoffMin, o.BackoffMax))
 	}
 	if o.Reverse {
-		opts = append(opts, jsonrpc.WithClientHandler("R", &RH{w, o.Name}), jsonrpc.WithClientHandlerAlias("R.WhoAlias", "R.Who"))
+		target := "R.Who"
+		if o.Alias2 {
+			target = "R.Who2"
+		}
+		opts = append(opts, jsonrpc.WithClientHandler("R", &RH{w, o.Name}), jsonrpc.WithClientHandlerAlias("R.WhoAlias", target))
 	}
 	first := true
 	opts = append(opts, jsonrpc.WithVerifConnFactory(func(orig func() (*websocket.Conn, error)) func() (*websocket.Conn, error) {
@@ -885,6 +915,9 @@ func (c *Client) Call(ctx context.Context, kind string, tok int, arg ...interfac
 	if kind == "callbacknotify" {
 		logKind = "notify"
 	}
+	if kind == "retryfalse" {
+		logKind = "unary" // retry:"false" is an untagged call as far as its contract goes
+	}
 	w.Rec.Emit("CallStart", "call", tok, "cli", c.Name, "kind", logKind, "transport", transportOf(c))
 	var err error
 	token := -1
@@ -896,6 +929,8 @@ func (c *Client) Call(ctx context.Context, kind string, tok int, arg ...interfac
 		token, err = c.API.Retry(ctx, tok)
 	case "retrync":
 		token, err = c.API.RetryNC(tok)
+	case "retryfalse":
+		token, err = c.API.RetryFalse(ctx, tok)
 	case "notify":
 		err = c.API.Notify(ctx, tok)
 		token = tok
@@ -932,6 +967,13 @@ func (c *Client) Call(ctx context.Context, kind string, tok int, arg ...interfac
 	case "callback":
 		var s string
 		s, err = c.API.CallBack(ctx, tok)
+		if c.alias2 && tok%3 == 1 && err == nil { // this client's own alias table says Who2 (which answers "<name>~2")
+			if s == c.Name+"~2" {
+				s = c.Name
+			} else {
+				s = "wrong-alias-target:" + s
+			}
+		}
 		detail = s
 		if err == nil {
 			token = tok
